@@ -111,6 +111,21 @@ type stUnexp struct {
 }
 type stPlain struct{ A T0 } // no marker: an ordinary value type
 
+// stNested embeds a marker struct, not the marker itself: an ordinary value.
+type stNested struct {
+	stMid
+	C T2
+}
+
+type markerAlias = am.Struct
+
+// stAlias embeds the marker through a type alias: still the marker type.
+type stAlias struct {
+	markerAlias
+	A T0
+	B T1 `argmapper:",typeOnly"`
+}
+
 type staticCase struct {
 	fn      interface{}
 	in, out []xLabel
@@ -128,6 +143,10 @@ var staticCases = []staticCase{
 	{fn: func() stUnexp { return stUnexp{} }, out: []xLabel{xl("why", types[1], "s"), xl("v", types[tI0], "")}, name: "struct-result"},
 	{fn: func() (*stLast, error) { return nil, nil }, out: []xLabel{xl("beta", types[2], ""), xl("", types[4], "q")}, name: "ptr-struct-result+error"},
 	{fn: func(stPlain) stPlain { return stPlain{} }, in: []xLabel{xl("", reflect.TypeOf(stPlain{}), "")}, out: []xLabel{xl("", reflect.TypeOf(stPlain{}), "")}, name: "plain-struct-is-a-value"},
+	{fn: func(stNested) {}, in: []xLabel{xl("", reflect.TypeOf(stNested{}), "")}, name: "nested-embedding-is-a-value"},
+	{fn: func(T0, stNested) stNested { return stNested{} }, in: []xLabel{xl("", types[0], ""), xl("", reflect.TypeOf(stNested{}), "")}, out: []xLabel{xl("", reflect.TypeOf(stNested{}), "")}, name: "nested-embedding-mixes-with-positional"},
+	{fn: func(stAlias) {}, in: []xLabel{xl("a", types[0], ""), xl("", types[1], "")}, name: "marker-through-alias"},
+	{fn: func(T0, stAlias) {}, reject: true, name: "alias-marker+positional"},
 	{fn: func(stMid, T0) {}, reject: true, name: "marker+positional"},
 	{fn: func(T0, stMid) {}, reject: true, name: "positional+marker"},
 	{fn: func(T0, *stLast, T1) {}, reject: true, name: "marker-in-middle-of-params"},
@@ -160,7 +179,7 @@ func init() {
 		Cases: func(t string) int { return tierN(t, 10000, 300000) },
 		Rule: "round trip: the Go function type is built from a label list (positional / struct / pointer-struct; names via field name or tag in random casing, ',typeOnly' with or without a dummy name, 'subtype=', with or without tags; " +
 			"results with trailing error, error in the middle, two trailing errors, concrete error types in final position), NewFunc must accept it and Input()/Output().Values() must equal the list in order (names lower-cased, final error stripped), " +
-			"Named/Typed/TypedSubtype must find each value, struct and pointer-struct forms must agree; 15 static struct types cover the marker in middle/last position, unexported fields and every rejected shape " +
+			"Named/Typed/TypedSubtype must find each value, struct and pointer-struct forms must agree; 19 static shapes cover the marker in middle/last position, nested embedding (an ordinary value), the marker embedded through a type alias, unexported fields and every rejected shape " +
 			"(marker struct mixed with other parameters/results at any position, **struct, two marker structs) plus non-function values. non-trivial = signature with >= 2 values or a rejected shape; distinct = distinct signature strings",
 		Assumptions: []string{"only the documented tag options are generated; dynamically built structs carry the marker first (reflect.StructOf restriction), static types cover other positions"},
 		Run:         runC14,
@@ -490,6 +509,9 @@ func runC17(c *CaseCtx) (res CaseResult) {
 	if c.Idx%6 == 5 {
 		return runC17Struct(c, r)
 	}
+	if c.Idx%12 == 4 {
+		return runC17PanicFirst(c, r)
+	}
 	k := r.Intn(5)
 	var outT []reflect.Type
 	var vals []reflect.Value
@@ -499,7 +521,13 @@ func runC17(c *CaseCtx) (res CaseResult) {
 		switch r.Intn(5) {
 		case 0:
 			outT = append(outT, errT)
-			if r.Intn(2) == 0 {
+			if x := r.Intn(5); x == 0 {
+				// a non-nil error interface holding a nil pointer is an error
+				var e error = (*concErr)(nil)
+				vals = append(vals, reflect.ValueOf(&e).Elem())
+				want = append(want, e)
+				desc += "error(typed-nil)! "
+			} else if x <= 2 {
 				e := errors.New(fmt.Sprint("e", i))
 				vals = append(vals, reflect.ValueOf(&e).Elem())
 				want = append(want, e)
@@ -713,6 +741,9 @@ func runC16(c *CaseCtx) (res CaseResult) {
 			v := mk(ti, id).Interface()
 			o := occ{key: i, ids: []int64{id}, call: r.Intn(2) == 0}
 			switch {
+			case l.Name != "" && l.Sub == "" && r.Intn(2) == 0:
+				// both spellings of one key must behave as one key
+				o.arg = am.Named(recase(r, l.Name), v)
 			case l.Name != "":
 				o.arg = am.NamedSubtype(recase(r, l.Name), v, l.Sub)
 			case l.Sub == "" && r.Intn(3) == 0:
@@ -722,6 +753,8 @@ func runC16(c *CaseCtx) (res CaseResult) {
 				o.ids = append(o.ids, id)
 				o.arg = am.Typed(v, nil, v2)
 				multi = true
+			case l.Sub == "" && r.Intn(2) == 0:
+				o.arg = am.Typed(v)
 			default:
 				o.arg = am.TypedSubtype(v, l.Sub)
 			}
@@ -936,6 +969,94 @@ func runC16(c *CaseCtx) (res CaseResult) {
 		}
 	}
 	res.NonTrivial = multi || split
+	res.Sample = det
+	return res
+}
+
+
+// runC17PanicFirst: fault injection — the first execution of a function
+// panics (the caller recovers); later calls must behave like calls: a result
+// with Err()==nil has exactly the function's results. For a run-once function
+// the panicking execution produced no result to remember.
+func runC17PanicFirst(c *CaseCtx, r *rand.Rand) (res CaseResult) {
+	once := r.Intn(3) > 0
+	k := 1 + r.Intn(3)
+	withErr := r.Intn(2) == 0
+	asConv := r.Intn(2) == 0
+	res.Key = fmt.Sprintf("panic-first once=%v k=%d err=%v conv=%v", once, k, withErr, asConv)
+	res.NonTrivial = true
+	det := map[string]interface{}{"results": res.Key}
+	var outT []reflect.Type
+	for i := 0; i < k; i++ {
+		outT = append(outT, types[i])
+	}
+	if withErr {
+		outT = append(outT, errT)
+	}
+	execs := 0
+	fn := reflect.MakeFunc(reflect.FuncOf(nil, outT, false), func([]reflect.Value) []reflect.Value {
+		execs++
+		if execs == 1 {
+			panic("injected fault in the first execution")
+		}
+		var out []reflect.Value
+		for i := 0; i < k; i++ {
+			out = append(out, mk(i, int64(100*execs+i+1)))
+		}
+		if withErr {
+			out = append(out, reflect.Zero(errT))
+		}
+		return out
+	})
+	var opts []am.Arg
+	if once {
+		opts = append(opts, am.FuncOnce())
+	}
+	f, err := am.NewFunc(fn.Interface(), opts...)
+	if err != nil {
+		res.violate("C14", "accepted-shape-rejected", err.Error(), det)
+		return res
+	}
+	consumer, _ := am.NewFunc(func(v T0) T5 { return T5{ID: v.ID} })
+	call := func() (o Outcome) {
+		if asConv {
+			return DoCall(nil, consumer, []am.Arg{am.ConverterFunc(f)})
+		}
+		return DoCall(nil, f, nil)
+	}
+	o1 := call()
+	res.Evals++
+	if o1.Class != ClsPanic {
+		res.obs("first_execution_did_not_panic", 1)
+	}
+	for rep := 0; rep < 3; rep++ {
+		o := call()
+		res.Evals++
+		if o.Class == ClsPanic {
+			res.violate("C06", "panic/after-recovered-panic", "a call after a recovered panic of the function's first execution panicked inside the library: "+o.Panic, det)
+			break
+		}
+		if o.Err != nil {
+			res.violate("C17", "err-spurious", "a call after a recovered panic failed: "+firstLine(errStr(o.Err)), det)
+			break
+		}
+		if asConv {
+			if id, _ := idOfIface(o.Res.Out(0)); o.Res.Len() != 1 || id <= 0 {
+				res.violate("C17", "out", fmt.Sprintf("consumer of the function returned Len()=%d value #%d", o.Res.Len(), id), det)
+			}
+		} else {
+			if o.Res.Len() != k {
+				res.violate("C17", "len", fmt.Sprintf("Err()==nil but Len() = %d for a function returning %d values", o.Res.Len(), k), det)
+				break
+			}
+			for i := 0; i < k; i++ {
+				if id, _ := idOfIface(o.Res.Out(i)); id <= 0 {
+					res.violate("C17", "out", fmt.Sprintf("Out(%d) carries #%d, not a value the function returned", i, id), det)
+				}
+			}
+		}
+		res.obs("calls_after_injected_panic", 1)
+	}
 	res.Sample = det
 	return res
 }
